@@ -2221,7 +2221,7 @@ class Converter:
         """
         pre_func = self.compress_or_standardize if ambiguous else self.compress
         func = partial(pre_func, strict=strict, passthrough=passthrough)  # type:ignore
-        df[column if target_column is None else target_column] = df[column].map(func)
+        df[column if target_column is None else target_column] = df[column].astype(object).map(func)
 
     def pd_expand(
         self,
@@ -2244,7 +2244,7 @@ class Converter:
         """
         pre_func = self.expand_or_standardize if ambiguous else self.expand
         func = partial(pre_func, strict=strict, passthrough=passthrough)  # type:ignore
-        df[column if target_column is None else target_column] = df[column].map(func)
+        df[column if target_column is None else target_column] = df[column].astype(object).map(func)
 
     def pd_standardize_prefix(
         self,
@@ -2265,7 +2265,7 @@ class Converter:
             Defaults to false.
         """
         func = partial(self.standardize_prefix, strict=strict, passthrough=passthrough)
-        df[column if target_column is None else target_column] = df[column].map(func)
+        df[column if target_column is None else target_column] = df[column].astype(object).map(func)
 
     def pd_standardize_curie(
         self,
@@ -2300,7 +2300,7 @@ class Converter:
         >>> converter.pd_standardize_curie(df, column="object_id")
         """
         func = partial(self.standardize_curie, strict=strict, passthrough=passthrough)
-        df[column if target_column is None else target_column] = df[column].map(func)
+        df[column if target_column is None else target_column] = df[column].astype(object).map(func)
 
     def pd_standardize_uri(
         self,
@@ -2321,7 +2321,7 @@ class Converter:
             Defaults to false.
         """
         func = partial(self.standardize_uri, strict=strict, passthrough=passthrough)
-        df[column if target_column is None else target_column] = df[column].map(func)
+        df[column if target_column is None else target_column] = df[column].astype(object).map(func)
 
     def file_compress(
         self,
